@@ -587,7 +587,7 @@ func (r *Reader) parseTable(tableNode *html.Node) *ParsedTable {
 			case "thead":
 				table.HasHeader = true
 				r.parseTableRows(c, table, true)
-			case "tbody":
+			case "tbody", "tfoot":
 				r.parseTableRows(c, table, false)
 			case "tr":
 				row := r.parseTableRow(c, false)
